@@ -18,7 +18,7 @@ THEOREMS = [
     "transform_total", "eval_refines_sat", "seek_eq_scan", "query_shortcut_free", "subquery_count_exact",
     "null_rules", "engine_null_rules", "null_literal_rule", "not_forms_negate",
     "stacked_eq_flatMap", "world_refines_spec", "query_exact", "query_exact_no_subquery",
-    "nil_row_violates", "subquery_tail_violates", "query_exact_full_fails",
+    "subquery_tail_violates", "query_exact_full_fails",
 ]
 
 
@@ -105,7 +105,6 @@ def _has_flag(flag):
 
 
 MATCHERS = {
-    "subquery-over-null-link": _has_flag("nilrow"),
     "subquery-over-set-then-links": _has_flag("subtail"),
 }
 
